@@ -202,6 +202,23 @@ Proof.
 Qed.
 Print Assumptions C07_example_duplicate_handler.
 
+(** (a) "not below the threshold the peer allowed it to forget": the handler forgets exactly what
+    IgnorePacketsBelow tells it. If every threshold passed by the caller is at most [A] (1 + the
+    largest LargestAcked among our ACK frames in packets the peer has acknowledged - unit c07glue
+    checks on the real sentPacketHandler that connection.go's caller never passes more), then every
+    accepted application-data packet at or above [A] that the range limit has not dropped is listed
+    in every ACK frame generated, i.e. stays acknowledged until the peer has confirmed an ACK. *)
+Theorem C07_unconfirmed_stay_acked : forall (ops : list op) A q now only f,
+  let hw := runW newHandler (fun _ => None) ops in
+  0 <= A ->
+  (forall p r, In (Ignore p, r) (trace newHandler ops) -> p <= A) ->
+  accepted (trace newHandler ops) 2 q -> A <= q ->
+  ~ le_opt q (snd hw 2%nat) ->
+  snd (h_get_ack (fst hw) rph_Enc1RTT now only) = Some f ->
+  inR q (aRanges f).
+Proof. exact unconfirmed_stay_acked. Qed.
+Print Assumptions C07_unconfirmed_stay_acked.
+
 (** REFUTED reading of (c) (DESIGN.md: "p >= Start of the lowest tracked range"): after the limit
     has dropped a range, a later lower packet opens a new lowest range below a forgotten number. *)
 Theorem C07_duplicate_lowstart_refuted :
